@@ -8,6 +8,7 @@ module-level list REG.
 import random
 
 HEADER = '''\
+import functools
 REG = []
 def deco(fn):
     return fn
@@ -204,7 +205,22 @@ class Layout(object):
 
   def container(self, d):
     r = self.rng.random()
-    if r < 0.35 or d >= 3:
+    if r < 0.08:
+      # one name, two definitions (both alive), and a functools.wraps wrapper that borrows name and qualname
+      self.used.add('same_name_redefined')
+      name = self.function(d)
+      n = self.nid()
+      self.emit(d, 'def %s(q=%d):' % (name, n))
+      self.emit(d + 1, 'y%d = q + %d' % (n, n))
+      self.emit(d + 1, 'return y%d' % n)
+      self.emit(d, 'REG.append(%s)' % name)
+      self.emit(d, '@functools.wraps(%s)' % name)
+      self.emit(d, 'def wr_%d(*a, **k):' % n)
+      self.emit(d + 1, 'z%d = %d' % (n, n))
+      self.emit(d + 1, 'return z%d' % n)
+      self.emit(d, 'REG.append(wr_%d)' % n)
+      self.used.add('functools_wraps')
+    elif r < 0.35 or d >= 3:
       self.function(d)
     elif r < 0.5:
       n = self.nid()
